@@ -287,6 +287,76 @@ func TestC13Ed25519Internal(t *testing.T) {
 					}
 				}
 			}
+			// aliased call forms (receiver = operand); only result values are asserted, the functions are
+			// free to overwrite their point argument (doubleMult leaves 15·Q in Q)
+			{
+				e := new(big.Int).Mul(n, a)
+				e.Add(e, m)
+				V := *P
+				V.doubleMult(&V, vlib.LE(m, paramB), vlib.LE(n, paramB))
+				if got, want := c13Enc(&V), c13Want(e); got != want {
+					if c13Report(t, "doubleMult", "aliased-P.doubleMult(P,m,n)", got, want, desc) {
+						return
+					}
+				}
+				// the same slice as both scalars
+				kb := vlib.LE(k, paramB)
+				Qc := *Q
+				V.doubleMult(&Qc, kb, kb)
+				e = new(big.Int).Mul(k, b)
+				if got, want := c13Enc(&V), c13Want(e.Add(e, k)); got != want {
+					if c13Report(t, "doubleMult", "aliased-same-scalar-slice", got, want, desc) {
+						return
+					}
+				}
+				// receiver holding an old value
+				W := *Q
+				W.fixedMult(kb)
+				if got, want := c13Enc(&W), c13Want(k); got != want {
+					if c13Report(t, "fixedMult", "receiver-with-old-value", got, want, desc) {
+						return
+					}
+				}
+				// P.add(P as pre-computed operand), P.mixAdd(P as affine operand)
+				var R2 pointR2
+				S := *P
+				R2.fromR1(&S)
+				S.add(&R2)
+				if got, want := c13Enc(&S), c13Want(new(big.Int).Lsh(a, 1)); got != want {
+					if c13Report(t, "add", "aliased-P.add(fromR1(P))", got, want, desc) {
+						return
+					}
+				}
+				S = *P
+				R2.fromR1(&S)
+				S.mixAdd(&R2.pointR3)
+				if got, want := c13Enc(&S), c13Want(new(big.Int).Lsh(a, 1)); got != want {
+					if c13Report(t, "mixAdd", "aliased-P.mixAdd(fromR1(P))", got, want, desc) {
+						return
+					}
+				}
+				// un-normalised receiver = operand for doubleMult: (2·(a/2)G).doubleMult(itself)
+				H := c13Mk(new(big.Int).Mod(new(big.Int).Mul(a, new(big.Int).ModInverse(big.NewInt(2), r)), r))
+				H.double()
+				H.doubleMult(H, vlib.LE(m, paramB), vlib.LE(n, paramB))
+				e = new(big.Int).Mul(n, a)
+				if got, want := c13Enc(H), c13Want(e.Add(e, m)); got != want {
+					if c13Report(t, "doubleMult", "aliased-projective", got, want, desc) {
+						return
+					}
+				}
+				// predicates
+				N := *P
+				N.neg()
+				zero := a.Sign() == 0
+				D := *P
+				D.double()
+				if P.isEqual(&N) != zero || N.isEqual(P) != zero || P.isEqual(&D) != zero || !P.isEqual(P) || P.isEqual(Q) != (a.Cmp(b) == 0) || Q.isEqual(P) != (a.Cmp(b) == 0) {
+					if vlib.Report(t, "C13/ed25519-internal.isEqual/structured-pairs", desc) {
+						return
+					}
+				}
+			}
 			// encode / decode keep the point
 			{
 				enc := make([]byte, paramB)
